@@ -752,7 +752,8 @@ def binding(ctx):
     bad = [x for x in reach if re.search(r'TypeRegistry::(resolve_string|resolve_grammar_type)', x)]
     ctx.ob(['C11', 'C19'], 'R-REACH', 'C11-D2|backend-does-not-resolve', not bad and len(be) >= 5, 'the backend never looks a short name up again; it prints the path stored in Type::Raw (%d backend functions)' % len(be))
     # D3 candidate order
-    e = expand(rs, rs.exits()[0]['expr']) if len(rs.exits()) == 1 else None
+    xp = lambda e_: expand(rs, e_, keep=lambda ty: ty.startswith('std::vec::Vec<&'))     # vectors of scope entries stay visible as locals
+    e = xp(rs.exits()[0]['expr']) if len(rs.exits()) == 1 else None
     ok = False
     det = ''
     def polarity(cl, depth=0):
@@ -799,9 +800,9 @@ def binding(ctx):
         """`it` iterates exactly the entries of the scope parameter that are (want_types) / are not registered types, in scope order
         apart from at most one rev(): partition(..).0 / .1, or filter(scope.iter(), <membership test with that polarity>).
         Returns (ok, number of rev)"""
-        it = strip(it)
-        revs = 0
-        seen_part = False
+        return scope_part_rest(strip(it), want_types, 0, False)
+
+    def scope_part_rest(it, want_types, revs, seen_part):
         while True:
             if it[0] == 'call' and it[2] and re.search(r'(IntoIterator::into_iter|Iterator::copied|Iterator::cloned|slice::<impl \[T\]>::iter|::deref|::as_slice)$', it[3] if len(it) > 3 else it[1]):
                 it = strip(it[2][0])
@@ -817,6 +818,27 @@ def binding(ctx):
                 it = strip(it[2][0])
                 continue
             break
+        if it[0] == 'var' and loop_built(rs, it[1]) is None:
+            it2 = strip(expand(rs, it))
+            if it2 != it:
+                it = it2
+                return scope_part_rest(it, want_types, revs, seen_part)
+        if it[0] == 'var' and not seen_part:
+            # the partition written as a loop: `for ip in scope { if registered(ip) { types.push(ip) } else { modules.push(ip) } }`
+            from mirlib import _edge_conds
+            lb = loop_built(rs, it[1])
+            if lb is not None:
+                src = strip(lb['source'])
+                while src[0] == 'call' and src[2] and re.search(r'(IntoIterator::into_iter|slice::<impl \[T\]>::iter|::deref|::as_slice)$', src[3] if len(src) > 3 else src[1]):
+                    src = strip(src[2][0])
+                el = strip(lb['elem'])
+                is_el = el[0] == 'payload' and el[2] == 'Some' and is_call(strip(el[1]), 'Iterator::next')
+                h_, body_, _l = lb['loop']
+                cs_ = [(c_, lab_) for b_, c_, lab_ in _edge_conds(rs, lb['push']) if b_ in body_]
+                okc = len(cs_) == 1 and cs_[0][1] in (True, False) and is_membership(P, strip(xp(cs_[0][0]))) and (cs_[0][1] is want_types) and \
+                    any(strip(y) == el for y in walk(xp(cs_[0][0])) if isinstance(y, tuple))
+                return bool(src[0] == 'arg' and is_el and okc and lb['pushes'] == [lb['push']]), revs
+            return False, revs
         if it[0] == 'field' and it[2] == ('0' if want_types else '1') and not seen_part:
             part = strip(it[1])
             if is_call(part, 'Iterator::partition') and len(part[2]) == 2 and polarity(part[2][1]) is True:
@@ -834,7 +856,7 @@ def binding(ctx):
             return False
         fnd = [f0]
         it = fnd[0][2][0]
-        okp, nrev = scope_part(expand(rs, it), True)
+        okp, nrev = scope_part(xp(it), True)
         ok1 = okp and nrev == 1
         pr = fnd[0][2][1]
         okn = False
@@ -854,7 +876,7 @@ def binding(ctx):
         if caps is not None:
             # in the or_else closure the module list (or the scope) is a captured value: put it back
             b = map_tree(b, lambda y: (strip(caps[y[1]]) if (isinstance(y, tuple) and y and y[0] == 'upvar' and y[1] < len(caps)) else y))
-        okm, nrev2 = scope_part(expand(rs, b), False)
+        okm, nrev2 = scope_part(xp(b), False)
         mods = okm and nrev2 == 0
         fnd2 = find_calls(ce, 'Iterator::find')
         jn = False
@@ -881,10 +903,11 @@ def binding(ctx):
                 det += ' ;; ' + show(ce)[:300]
                 ok2 = stage2_ok(ce, fb[2])
         ok = ok1 and ok2
-    elif e is None and len(rs.exits()) == 2 and not rs.loops():
+    elif e is None and len(rs.exits()) == 2 and all(any(loop_built(rs, l_) is not None and loop_built(rs, l_)['loop'][0] == L_[0] for l_ in range(rs.nargs + 1, len(rs.raw['locals'])))
+                                                   for L_ in rs.loops()):
         # the same two stages with an early return: `if let Some(p) = <stage 1> { return Some(Raw(p)) }  <stage 2>`
         xs = rs.exits()
-        vals = [(x, strip(expand(rs, x['expr']))) for x in xs]
+        vals = [(x, strip(xp(x['expr']))) for x in xs]
         some = [(x, v) for x, v in vals if v[0] == 'agg' and v[1].endswith('Option::Some')]
         rest = [(x, v) for x, v in vals if not (v[0] == 'agg' and v[1].endswith('Option::Some'))]
         if len(some) == 1 and len(rest) == 1:
@@ -901,7 +924,7 @@ def binding(ctx):
             if hit is not None:
                 det = show(hit)[:200] + ' ;; ' + show(v2)[:300]
                 # the early return sits on the Some edge of the test of stage 1, stage 2 on its None edge
-                sw_ = [s_ for s_ in rs.switches() if s_['cond'][0] == 'discr' and strip(expand(rs, s_['cond'][1])) == hit]
+                sw_ = [s_ for s_ in rs.switches() if s_['cond'][0] == 'discr' and strip(xp(s_['cond'][1])) == hit]
                 ordered = False
                 for s_ in sw_:
                     se = dict((lab, tgt) for lab, tgt in s_['edges'])
